@@ -30,20 +30,21 @@ type runSpec struct {
 }
 
 type scenario struct {
-	Files      map[string]string      `json:"files"`
-	Main       string                 `json:"main"`
-	Runs       []runSpec              `json:"runs"`
-	Overlap    bool                   `json:"overlap"`
-	Script     map[string]*stepScript `json:"script"`
-	Schedule   *schedule              `json:"schedule"`
-	NoHooks    bool                   `json:"nohooks"` // do not install the event sink: the hooks then take no lock and no atomic, so they order nothing (race runs)
-	TimeoutMS  int                    `json:"timeout_ms"`
-	TraceOut   string                 `json:"trace_out"`
-	ResultOut  string                 `json:"result_out"`
-	PrepareN   int                    `json:"prepare_n"`        // prepare the workflow this many extra times (unused copies)
-	PreparePar int                    `json:"prepare_parallel"` // additionally prepare it this many times concurrently
-	SettleMS   int                    `json:"settle_ms"`
-	MaxStackMB int                    `json:"max_stack_mb"`
+	Files           map[string]string      `json:"files"`
+	Main            string                 `json:"main"`
+	Runs            []runSpec              `json:"runs"`
+	Overlap         bool                   `json:"overlap"`
+	Script          map[string]*stepScript `json:"script"`
+	Schedule        *schedule              `json:"schedule"`
+	ScribbleResults bool                   `json:"scribble_results"` // overwrite every returned output in place after it was recorded
+	NoHooks         bool                   `json:"nohooks"`          // do not install the event sink: the hooks then take no lock and no atomic, so they order nothing (race runs)
+	TimeoutMS       int                    `json:"timeout_ms"`
+	TraceOut        string                 `json:"trace_out"`
+	ResultOut       string                 `json:"result_out"`
+	PrepareN        int                    `json:"prepare_n"`        // prepare the workflow this many extra times (unused copies)
+	PreparePar      int                    `json:"prepare_parallel"` // additionally prepare it this many times concurrently
+	SettleMS        int                    `json:"settle_ms"`
+	MaxStackMB      int                    `json:"max_stack_mb"`
 	// engine mode: go through engine.New / Parse / Run (the embeddable API the CLI uses)
 	Engine      bool     `json:"engine"`
 	ContextDir  string   `json:"context_dir"`  // "" = in-memory file cache; else a directory holding the files (abs or relative)
@@ -298,6 +299,11 @@ func cmdRun(path string) int {
 			} else {
 				rr.Flat = leaves(data)
 				rr.DType = fmt.Sprintf("%T", data)
+				if sc.ScribbleResults {
+					// a caller may do with a result what it likes (redact it, annotate it, sort it): the result
+					// of one run is not part of the prepared workflow, nor of any other run
+					scribble(data)
+				}
 			}
 			snk.note("XRunRet", "runidx", i, "id", oid, "err", err)
 		}
@@ -374,4 +380,36 @@ func engineParse(book *scriptBook, sc *scenario) (engine.Workflow, error) {
 		key = "workflow"
 	}
 	return eng.Parse(fc, key)
+}
+
+// scribble overwrites a returned value in place: every string leaf, every list element and one extra key per map.
+func scribble(v any) {
+	switch t := v.(type) {
+	case map[string]any:
+		for k, x := range t {
+			if _, ok := x.(string); ok {
+				t[k] = "SCRIBBLED"
+			} else {
+				scribble(x)
+			}
+		}
+		t["scribbled_by_caller"] = true
+	case map[any]any:
+		for k, x := range t {
+			if _, ok := x.(string); ok {
+				t[k] = "SCRIBBLED"
+			} else {
+				scribble(x)
+			}
+		}
+		t["scribbled_by_caller"] = true
+	case []any:
+		for i, x := range t {
+			if _, ok := x.(string); ok {
+				t[i] = "SCRIBBLED"
+			} else {
+				scribble(x)
+			}
+		}
+	}
 }
